@@ -668,6 +668,7 @@ class Interp:
         # after the batch has completed: exact comparison
         for i in focus:
             await self.get(getter, i, self.Chooser([0]))
+            self.raced.discard((table, i))  # the overlap only explains a stale entry seen right after the batch
 
     async def run(self, ops: list) -> None:
         for op in ops:
@@ -746,8 +747,30 @@ def _config(tmp: str) -> dict:
     return {"database": {"type": "default", "config": {"connection": os.path.join(tmp, "db", "sf.db")}}, "path": os.path.join(tmp, "streamflow.yml")}
 
 
-@prop.given("det", det_case, quick=1600, thorough=60000)
+class _gc_guard:
+    """cachebox 6.2.0 (pinned by the repository) can dead-lock the interpreter when a full garbage collection starts while
+    its ``cached`` wrapper runs ``locks.setdefault_with(key, <python callable>)``: the collector traverses the Cache object,
+    whose traverse hook takes the mutex the same thread already holds (observed once in a long run; back trace in the
+    agent report). Collections are therefore postponed to the end of each case; this changes no program semantics."""
+
+    def __enter__(self):
+        import gc
+
+        gc.disable()
+
+    def __exit__(self, *a):
+        import gc
+
+        gc.enable()
+
+
+@prop.given("det", det_case, quick=1600, thorough=80000, max_shards=10)
 async def check_det(case, rec):
+    with _gc_guard():
+        await _check_det(case, rec)
+
+
+async def _check_det(case, rec):
     from vf.engine.detloop import Chaos, pending_tasks, settle
 
     _install_chaos_connect()
@@ -779,8 +802,13 @@ async def check_det(case, rec):
             shutil.rmtree(tmp, ignore_errors=True)
 
 
-@prop.given("aiosqlite", aio_case, quick=320, thorough=12000, loop="std", case_timeout=120.0, max_shards=8)
+@prop.given("aiosqlite", aio_case, quick=360, thorough=16000, loop="std", case_timeout=120.0, max_shards=6)
 async def check_aio(case, rec):
+    with _gc_guard():
+        await _check_aio(case, rec)
+
+
+async def _check_aio(case, rec):
     _install_real_connect()
     import aiosqlite
 
